@@ -183,7 +183,9 @@ def check_quiescent(view, expect_empty_dlq=True):
         if run or trun:
             v.append({"kind": "running-under-finished-workflow", "stages": run, "tasks": trun, "wf": wf,
                       "sig": f"running-under-finished:{wf}"})
-    if expect_empty_dlq and view.dlq:
+    # a dead-lettered message is only this property's business when the workflow it belonged to is NOT final: then the
+    # message that would have moved it on is gone (a poison message of a finished workflow is merely noise)
+    if expect_empty_dlq and view.dlq and wf not in COMPLETE:
         v.append({"kind": "dlq-not-empty", "dlq": [m["type"] for m in view.dlq],
                   "sig": "dlq-not-empty:" + ",".join(sorted({m["type"] for m in view.dlq})) + f":wf={view.wf['status']}"})
     return v
